@@ -1,2 +1,5 @@
 import PiqpModel.Scalar
 import PiqpModel.QQ
+import PiqpModel.Data
+import PiqpModel.LinAlg
+import PiqpModel.KKT
